@@ -463,6 +463,39 @@ func (w *world) q(t []string) string {
 			w.out.Oracle(w.out.Lines, fmt.Sprintf("[request-hangs-or-panics] case %d: request %s: %s", w.caseID, strings.Join(t[1:], " "), x))
 		}
 	}
+	if (t[1] == "kidsaggf" || t[1] == "agg2f") && !strings.HasPrefix(b, "panic") && b != "hang" {
+		// the property's own statement: the aggregate asked from the parent side equals the same question asked from
+		// the child side (documents of the child collection pointing to that parent and passing the filter)
+		ri, _ := strconv.Atoi(t[2])
+		r := w.tp.rels[ri]
+		ab := strings.Split(t[3], ",")
+		for _, item := range strings.Fields(b) {
+			parts := strings.Split(item, ":")
+			last := parts[len(parts)-1]
+			var got string
+			if t[1] == "kidsaggf" {
+				got = strings.TrimPrefix(last, "count=")
+			} else {
+				got = last[strings.Index(last, "c2=")+3:]
+			}
+			var pid string
+			for _, d := range w.docs {
+				if d.label == parts[0] {
+					pid = d.docID
+				}
+			}
+			if pid == "" {
+				continue
+			}
+			res := gqlT(w.ctx, w.nodes[1], fmt.Sprintf(`query { _count(%s: {filter: {%s_id: {_eq: "%s"}, x: {_gt: %s, _lt: %s}}}) }`, r.child, r.fk, pid, ab[0], ab[1]))
+			var m map[string]any
+			if json.Unmarshal([]byte(res), &m) == nil {
+				if want := num(m["_count"]); want != got {
+					w.out.Oracle(w.out.Lines, fmt.Sprintf("[relation-sides-disagree] case %d (%s): request %s counts %s related documents of %s from the parent side, the child side counts %s", w.caseID, w.tp.name, strings.Join(t[1:], " "), got, parts[0], want))
+				}
+			}
+		}
+	}
 	if t[1] == "corder" {
 		// ordering itself, on the implementation alone: keys never decrease (none and null are both "no value")
 		prev := -1 << 62
